@@ -18,7 +18,7 @@ P = {
  "C03": dict(
   technique="property-based testing (proptest) with tie-heavy / monotone-run generators vs exact per-window reference, plus coverage-guided fuzzing (libFuzzer) of the extrema state machine in the thorough tier",
   text="Generated tie-heavy, monotone-run and plateau series with null blocks; every position compared exactly (tolerance 0) with the per-window definition for min/max/arg/rank, 4 ulp for minmaxnorm and DESIGN 5.9 for zscore. Non-trivial cases are those where the cached extreme expired and ties exist.",
-  note="Omitted min_periods of the extrema family asserted for len >= w only (5.3); integer output not requested for ts_vmin/ts_vmax (5.7).",
+  note="Omitted min_periods of the extrema family asserted for len >= w only (5.3); integer output not requested for ts_vmin/ts_vmax (5.7). Thorough tier adds 8 libFuzzer campaigns (target fz_extrema, ASan) with the same oracle.",
   ref="6 C03, 5.3"),
  "C04": dict(
   technique="property-based testing (proptest): generated pairs with independent null patterns incl. collinear / constant windows vs per-window least squares computed with centred two-pass sums",
@@ -38,7 +38,7 @@ P = {
  "C07": dict(
   technique="differential property testing (proptest + exhaustive small scope): same logical sequence materialised in every backend / rotation / stride / chunking, results compared bitwise with the Vec reference; accessor coherence model",
   text="Differential testing across the backend x output container x out-path matrix: every cell must be bit-identical to the Vec->Vec returned reference; accessor coherence (get/iter/rev/slice/try_as_slice/len) is enumerated exhaustively for small sequences.",
-  note="Cells documented as unsupported (Polars uset, DESIGN 5.7) are not generated; Polars cells run in a separate binary.",
+  note="Cells documented as unsupported (Polars uset, DESIGN 5.7) are not generated. The Polars cells (chunked arrays with 1..3 chunks as input and as output container) run in the companion binary c07pl, which the THOROUGH tier builds and runs (linking polars takes minutes); the quick tier covers all non-Polars backends.",
   ref="6 C07, 5.7"),
  "C08": dict(
   technique="metamorphic property testing (proptest): NaN-encoding vs None-encoding of the same logical series, and null-insertion transparency",
@@ -48,12 +48,12 @@ P = {
  "C09": dict(
   technique="stateful property testing (proptest): generated adaptor pipelines (Vec<Op> programs) and consumption scripts; safe item count vs size_hint at every consumption point; libFuzzer+ASan pipeline fuzzing in the thorough tier",
   text="For every trusted-length adaptor and random pipelines of depth 1..6, after every prefix of a consumption script the upper size hint must equal the number of items actually obtainable by safe iteration; only then are the trusted collectors run and their length/content compared.",
-  note="Oracle never trusts the hint (counts with a cap); collectors only run when the hint was verified, so a violation cannot corrupt the harness.",
+  note="Oracle never trusts the hint (counts with a cap); collectors only run when the hint was verified, so a violation cannot corrupt the harness. Thorough tier adds 8 libFuzzer campaigns (fz_iter: byte-decoded pipeline programs, collectors under ASan).",
   ref="6 C09"),
  "C10": dict(
   technique="property-based testing with instrumented containers (access-log / write-log monitors) implementing the public backend traits; libFuzzer+ASan on the real containers in the thorough tier",
   text="All rolling, rank, partition and quantile kernels run against an instrumented input view (logs every unchecked access) and an instrumented output buffer (logs every write); outcome must be a completed call with a clean log and every slot written exactly once, or a clean panic before any bad access.",
-  note="Instrumented containers re-use the library's own default driver bodies; real-container confirmation is limited to what ASan sees.",
+  note="Instrumented containers re-use the library's own default driver bodies; sub real_containers runs the kernels on the real Vec / wrapped VecDeque / strided ndarray view against the model, and the thorough tier repeats that under ASan with libFuzzer (fz_kernel).",
   ref="6 C10"),
  "C11": dict(
   technique="property-based testing (proptest): textbook reference definitions on the non-null elements, null law, permutation invariance (metamorphic)",
@@ -93,7 +93,7 @@ P = {
  "C18": dict(
   technique="grammar-based and mutation-based property testing (proptest) plus coverage-guided fuzzing (libFuzzer) of the parsers; format/parse round trip",
   text="Parsers are run on generated arbitrary and near-grammar strings and must return Ok/Err without panicking; well-formed duration strings must parse to the sum of their terms; strftime -> parse round-trips at the unit's resolution.",
-  note="Totality is shown for generated strings only; round trip for years 1..=9999.",
+  note="Totality is shown for generated strings only; round trip for years 1..=9999 (1678..2261 and the range edges for ns). Thorough tier adds 8 libFuzzer campaigns (fz_parse) on the same parser set.",
   ref="6 C18"),
  "C19": dict(
   technique="property-based testing (proptest): arithmetic-progression model for range/linspace, order/content model for collectors, write-log model for write_trust_iter",
